@@ -61,8 +61,12 @@ class Session(BusSession):
         self.method('Q', 'BecomeMonitor', [R.A('s', []), R.U(0)], iface=b'org.freedesktop.DBus.Monitoring')
         self.connect_slot('E', nofd=True)
         self.method('E', 'AddMatch', [R.S(b"eavesdrop='true',type='method_call'")])
-        for l in ('F', 'G', 'P', 'N', 'Q', 'E'):
+        # a SENDER that never negotiated descriptor passing but attaches descriptors anyway
+        self.connect_slot('X', nofd=True)
+        for l in ('F', 'G', 'P', 'N', 'Q', 'E', 'X'):
             self.take(l)
+        self.opened = 0                   # connections made after the baseline was taken (two descriptors each: both ends live in this process)
+        self.h_state = 'closed'           # H: a client that attaches a surplus descriptor to its very first message (Hello)
         self.baseline = self.bus.fdcount()
         self.closed_by_harness = 0
         self.closed_by_bus = 0
@@ -91,13 +95,20 @@ class Session(BusSession):
             ops.append(['disc', 'F'])
         if self.is_open('G'):
             ops.append(['disc', 'G'])
+        if self.is_open('X'):
+            for a, b in ((0, 1), (1, 1), (1, 0)):
+                ops.append(['sendx', a, b])
+        if self.h_state == 'closed':
+            ops.append(['connh'])
+        elif self.is_open('H'):
+            ops.append(['disc', 'H'])
         if any(self.surplus.values()):
             ops.append(['advance', 6000])
         return ops
 
     def expected_fds(self):
         """Descriptor count the process should have now."""
-        return self.baseline - 2 * self.closed_by_harness - self.closed_by_bus + sum(v for l, v in self.surplus.items() if self.is_open(l))
+        return self.baseline + 2 * self.opened - 2 * self.closed_by_harness - self.closed_by_bus + sum(v for l, v in self.surplus.items() if self.is_open(l))
 
     def apply(self, op):
         out = []
@@ -210,24 +221,87 @@ class Session(BusSession):
                     self.dirty = True
             for l in list(self.inbox):
                 self.take(l)
+        elif kind == 'sendx':
+            _, a, b = op
+            self.tok += 1
+            tok = b'T%d' % self.tok
+            c = self.slots['X']
+            s = self.bus.next_serial(c)
+            fields = [(R.F_PATH, (b'o', b'/f')), (R.F_INTERFACE, (b's', b'f.i')), (R.F_MEMBER, (b's', b'Take')), (R.F_DESTINATION, (b's', G_NAME))]
+            if a:
+                fields.append((R.F_UNIX_FDS, (b'u', a)))
+            m = R.Msg(R.MT_CALL, 0, s, fields, [R.S(tok)] + [R.H(i) for i in range(a)])
+            was_open_g = self.is_open('G')
+            self.send_raw('X', R.encode_message(m), list(range(b)) or None)
+            self.hit('send-from-unnegotiated-%d-%d' % (a, b))
+            got = self.last_fds
+            for l in ('G', 'P', 'N', 'Q', 'E', 'F', 'X'):
+                if got.get(l):
+                    out.append(Violation('fd-delivered-to-wrong-connection', 'from-unnegotiated-sender', '%s: %s received descriptors %r attached by a sender that never negotiated descriptor passing' % (desc, l, got.get(l)), None))
+            copies = [o for o in self.inbox.get('G', []) if o.body and o.body[0][1] == tok]
+            if a:
+                # announces descriptors on a connection that cannot carry any: not a valid message there
+                if copies:
+                    out.append(Violation('fd-message-delivered', 'not-negotiated-sender', '%s: a message announcing %d descriptors from a connection without descriptor passing was delivered' % (desc, a), None))
+                if not self.eof.get('X'):
+                    out.append(Violation('fd-message-delivered', 'not-negotiated-sender-kept', '%s: the sender was not disconnected' % desc, None))
+                    self.close_slot('X')
+                    self.closed_by_harness += 1
+                else:
+                    self.slots['X'] = None
+                    self.closed_by_bus += 1
+            else:
+                if was_open_g and len(copies) != 1:
+                    out.append(Violation('fd-message-not-delivered', 'stray-descriptors', '%s: an ordinary message with stray descriptors attached arrived %d times' % (desc, len(copies)), None))
+                if self.eof.get('X'):
+                    self.slots['X'] = None
+                    self.closed_by_bus += 1
+            for l in list(self.inbox):
+                self.take(l)
+        elif kind == 'connh':
+            self.connect_slot('H', hello=False)
+            self.opened += 1
+            c = self.slots['H']
+            s = self.bus.next_serial(c)
+            self.send_raw('H', R.encode_message(R.bus_call(s, 'Hello')), [0])
+            self.h_state = 'open'
+            self.hit('surplus-descriptor-with-hello')
+            if self.eof.get('H'):
+                self.slots['H'] = None
+                self.closed_by_bus += 1
+            else:
+                rep = [o for o in self.inbox.get('H', []) if o.kind == R.MT_RETURN and o.rserial == s]
+                if rep:
+                    self.uname['H'] = rep[0].args()[0]
+                    self.label_of[self.uname['H']] = 'H'
+                    self.bus.names[c] = self.uname['H']
+                self.surplus['H'] = 1
+            for l in list(self.inbox):
+                self.take(l)
         elif kind == 'disc':
             l = op[1]
             self.close_slot(l)
             self.closed_by_harness += 1
             if l in self.surplus:
                 self.surplus[l] = 0
-                self.fdq = []
+                if l == 'F':
+                    self.fdq = []
         elif kind == 'advance':
             self.advance(op[1])
-            if self.surplus.get('F') and self.is_open('F'):
-                # a connection still holding surplus descriptors past the timeout is dropped
-                if not self.eof.get('F'):
-                    out.append(Violation('pending-fd-timeout', 'not-dropped', '%s: connection holding %d surplus descriptors survived pending_fd_timeout' % (desc, self.surplus['F']), None))
-                self.slots['F'] = None
-                self.closed_by_bus += 1
-                self.surplus['F'] = 0
-                self.fdq = []
-                self.hit('pending-fd-timeout')
+            for who in ('F', 'H'):
+                if self.surplus.get(who) and self.is_open(who):
+                    # a connection still holding surplus descriptors past the timeout is dropped
+                    if not self.eof.get(who):
+                        out.append(Violation('pending-fd-timeout', 'not-dropped' if who == 'F' else 'not-dropped-surplus-before-hello', '%s: connection %s holding %d surplus descriptors survived pending_fd_timeout' % (desc, who, self.surplus[who]), None))
+                        self.close_slot(who)
+                        self.closed_by_harness += 1
+                    else:
+                        self.slots[who] = None
+                        self.closed_by_bus += 1
+                    self.surplus[who] = 0
+                    if who == 'F':
+                        self.fdq = []
+                    self.hit('pending-fd-timeout')
             for l in list(self.inbox):
                 self.take(l)
         if not out:
@@ -251,7 +325,7 @@ class Session(BusSession):
         BusSession._distribute(self, out)
 
     def key(self):
-        return re.sub(r'serial=\d+', 'serial=*', self.impl_key()) + '#' + repr((self.closed_by_harness, self.closed_by_bus, sorted(self.surplus.items()), self.fdq, sorted(l for l in ('F', 'G', 'P') if self.is_open(l))))
+        return re.sub(r'serial=\d+', 'serial=*', self.impl_key()) + '#' + repr((self.opened, self.closed_by_harness, self.closed_by_bus, sorted(self.surplus.items()), self.fdq, sorted(l for l in ('F', 'G', 'P', 'X', 'H') if self.is_open(l)), self.h_state))
 
 
 def backpressure_scenarios(tier):
